@@ -41,19 +41,50 @@ type sumCacheKey struct {
 }
 
 var sumCache = map[sumCacheKey][]Summary{}
-var engCache = map[*World]map[[2]int]*Engine{}
+var engCache = map[*World]map[string]*Engine{}
 
-func engFor(w *World, depth, loops int) *Engine {
+func engFor(w *World, depth, loops int, opaque ...string) *Engine {
 	if engCache[w] == nil {
-		engCache[w] = map[[2]int]*Engine{}
+		engCache[w] = map[string]*Engine{}
 	}
-	k := [2]int{depth, loops}
+	k := fmt.Sprint(depth, loops, opaque)
 	if e, ok := engCache[w][k]; ok {
 		return e
 	}
 	e := w.engine(depth, loops)
+	for _, o := range opaque {
+		e.opaque[o] = true
+	}
 	engCache[w][k] = e
 	return e
+}
+
+// exploreOpaque is explore with the named module functions kept as opaque call events.
+func exploreOpaque(w *World, r *Run, rule, name string, depth, loops int, opaque ...string) ([]Summary, *Engine, bool) {
+	fn := w.fn(name)
+	if fn == nil {
+		r.Undecided(rule, name, "", "anchor function not found in the type-checked program")
+		return nil, nil, false
+	}
+	e := engFor(w, depth, loops, opaque...)
+	k := sumCacheKey{w, name + "|opaque:" + strings.Join(opaque, ","), depth, loops}
+	sums, ok := sumCache[k]
+	if !ok {
+		sums = e.Explore(fn)
+		sumCache[k] = sums
+	}
+	r.Analysed(name, len(sums))
+	for _, s := range sums {
+		if s.Trunc != "" {
+			r.Undecided(rule, name, w.pos(fn.Pos()), "path enumeration truncated: "+s.Trunc)
+			return nil, e, false
+		}
+	}
+	if len(sums) == 0 {
+		r.Undecided(rule, name, w.pos(fn.Pos()), "no feasible path")
+		return nil, e, false
+	}
+	return sums, e, true
 }
 
 // explore returns the path summaries of a named module function, or reports undecided.
